@@ -172,7 +172,11 @@ ACC_LAYOUTS = {
     "lacks-replica": ([("A|r1", "list"), ("A|r2", "range")], [("A|r1", "list")], [("A|r1", "list"), ("A|r2", "range")]),
     "two-ensembles": ([("A|r1", "range")], [("B|r1", "list")], [("A|r1", "range"), ("B|r1", "list")]),
     "single-operand": ([("A|r1", "list")], None, [("A|r1", "list")]),
+    # aliasing: when all operands carry the same list, _merge_idx returns the first operand's list OBJECT itself
+    "same-chain-ll-alias": ([("A|r1", "list")], [("A|r1", "list")], [("A|r1", "list")]),
+    "lacks-replica-alias-first": ([("A|r1", "list")], [("A|r1", "list"), ("A|r2", "range")], [("A|r1", "list"), ("A|r2", "range")]),
 }
+ALIAS = {"same-chain-ll-alias": ["A|r1"], "lacks-replica-alias-first": ["A|r1"]}
 
 
 # C03: deriving observables reads only the data of its inputs, never results of an earlier error analysis
@@ -215,6 +219,7 @@ class _AccOn(Spec):
             d = CDict()
             for cn, kind in self.lr:
                 d.d[cn] = (IdlRange(5) if kind == "range" else IdlList(5)).make("new." + cn, ctx, None)
+            d.alias = self.key in ALIAS
             return d
         if w == "deriv":
             return CList([SReal(z3.Real(fresh("deriv%d" % j))) for j in range(1 if self.l1 is None else 2)], "ndarray")
@@ -223,6 +228,12 @@ class _AccOn(Spec):
 
 def _scale_closure(name, ctx, shape=None):
     return None      # bound in requires (needs new_idl_d); see _acc_bind
+
+
+def _same_list(x, y):
+    """x and y are the same configuration list object (survives cloning of the pre-state: same underlying array term)"""
+    ax, ay = getattr(x, "arr", None), getattr(y, "arr", None)
+    return ax is not None and ay is not None and ax.eq(ay)
 
 
 def _keys(d):
@@ -262,6 +273,12 @@ def _acc_post(a, r):
             continue
         have = [j for j, o in enumerate(ops) if cn in names_of(o)]
         out["len.%s" % cn] = Len(res) == Len(ni)
+        if isinstance(new, CDict) and any(_same_list(ni, chain(ops[j], cn, "idl")) for j in have):
+            # intermediate assertion for the aliasing layouts: equal configuration numbers sit at equal positions
+            for j in have:
+                oi = chain(ops[j], cn, "idl")
+                out["lem.position.%d.%s" % (j, cn)] = ForAll(0, Len(ni), lambda k, oi=oi, ni=ni: ForAll(0, Len(oi), lambda i: Implies(
+                    At(oi, i) == At(ni, k), i == k)))
         if len(have) == 1:
             j = have[0]
             o = ops[j]
@@ -275,9 +292,13 @@ def _acc_post(a, r):
             d0, d1 = At(a.deriv, 0), At(a.deriv, 1)
             m0 = lambda k: ForAll(0, Len(i0l), lambda i: At(i0l, i) != At(ni, k))
             m1 = lambda k: ForAll(0, Len(i1l), lambda i: At(i1l, i) != At(ni, k))
-            out["both.%s" % cn] = ForAll(0, Len(ni), lambda k: ForAll(0, Len(i0l), lambda i: ForAll(0, Len(i1l), lambda ii: Implies(
-                And(At(i0l, i) == At(ni, k), At(i1l, ii) == At(ni, k)),
-                eq(At(res, k), _contrib(o0, new, cn, d0, k, i) + _contrib(o1, new, cn, d1, k, ii))))))
+            if _same_list(ni, i0l) or _same_list(ni, i1l):
+                # all three lists coincide: every configuration is a hit of both operands at the same position
+                out["both.%s" % cn] = ForAll(0, Len(ni), lambda k: eq(At(res, k), _contrib(o0, new, cn, d0, k, k) + _contrib(o1, new, cn, d1, k, k)))
+            else:
+                out["both.%s" % cn] = ForAll(0, Len(ni), lambda k: ForAll(0, Len(i0l), lambda i: ForAll(0, Len(i1l), lambda ii: Implies(
+                    And(At(i0l, i) == At(ni, k), At(i1l, ii) == At(ni, k)),
+                    eq(At(res, k), _contrib(o0, new, cn, d0, k, i) + _contrib(o1, new, cn, d1, k, ii))))))
             out["only0.%s" % cn] = ForAll(0, Len(ni), lambda k: ForAll(0, Len(i0l), lambda i: Implies(
                 And(At(i0l, i) == At(ni, k), m1(k)), eq(At(res, k), _contrib(o0, new, cn, d0, k, i)))))
             out["only1.%s" % cn] = ForAll(0, Len(ni), lambda k: ForAll(0, Len(i1l), lambda ii: Implies(
@@ -329,11 +350,17 @@ def _acc_gen(rng, case):
 
 
 def _acc_requires(a):
-    from contracts.obs_kernel import subset
+    from contracts.obs_kernel import subset, pyeq
     out = {}
-    for j, o in enumerate(_ops(a.data)):
+    alias = isinstance(a.new_idl_d, CDict) and getattr(a.new_idl_d, "alias", False)
+    ops = _ops(a.data)
+    for j, o in enumerate(ops):
         for cn in names_of(o):
-            out["merged.%d.%s" % (j, cn)] = subset(chain(o, cn, "idl"), D(a.new_idl_d, cn))
+            if alias:
+                # all operands that have the chain carry the same list (that is when _merge_idx hands back the object)
+                out["same-list.%d.%s" % (j, cn)] = pyeq(chain(o, cn, "idl"), chain(ops[0], cn, "idl"))
+            else:
+                out["merged.%d.%s" % (j, cn)] = subset(chain(o, cn, "idl"), D(a.new_idl_d, cn))
     return out
 
 
@@ -348,8 +375,17 @@ class _LazyClosure:
     pass
 
 
+def _alias_lists(args):
+    """aliasing layouts: the merged list of a chain IS the first operand's list object"""
+    ops = args["data"].items
+    for cn in list(args["new_idl_d"].d):
+        if cn in names_of(ops[0]) and getattr(args["new_idl_d"], "alias", False):
+            args["new_idl_d"].d[cn] = ops[0].attrs["idl"].d[cn]
+
+
 def _acc_execute_hook(interp, mod, fnode, args):
     """bind the nested function to the live-in new_idl_d before the slice runs"""
+    _alias_lists(args)
     nested = mod.functions.get("derived_observable::_compute_scalefactor_missing_rep")
     env = Env(None)
     env.set("new_idl_d", args["new_idl_d"])
